@@ -21,7 +21,7 @@ pub const UNI_WORDS: &[&str] = &[
     "\u{4f60}\u{597d}", "\u{4e16}\u{754c}", "\u{4f60}", "caf\u{e9}", "\u{e9}t\u{e9}", "\u{1f602}", "\u{1f602}\u{1f60d}", "e\u{301}", "\u{301}",
     "\u{ff28}", "\u{ff28}\u{ff45}", "a\u{a0}b", "\u{a0}", "a\u{200b}b", "\u{200b}", "hy\u{ad}phen", "\u{ad}", "a\u{2060}b", "\u{1f468}\u{200d}\u{1f9b0}",
     "\u{2049}\u{fe0f}", "\u{3ff}", "\u{2011}", "foo\u{2011}bar", "\u{3000}", "\u{1100}", "\u{10ff}", "\u{10ffff}", "\u{7f}", "\u{85}",
-    "ab\u{7f}", "\u{7f}x",
+    "ab\u{7f}", "\u{7f}x", "aa\u{a0}", "\u{3000}b", "c\u{2003}", "\u{a0}d",
 ];
 /// otherwise plain words containing characters that take no column although they take a byte / a char (DEL, C1, ZWSP,
 /// soft hyphen, word joiner, combining mark, variation selector): the place where "display width" and "length" differ
@@ -33,7 +33,7 @@ pub const ZW_WORDS: &[&str] = &[
     "\u{5bbd}-a\u{301}", "\u{5bbd}\u{5bbd}-a\u{301}\u{301}b", "a\u{301}-\u{4f60}", "\u{7f}x-\u{4f60}", "\u{4f60}\u{7f}-ab",
 ];
 pub const CTRL_WORDS: &[&str] = &["\t", "a\tb", "\r", "a\rb", "\u{0}", "\u{b}", "\u{c}", "\u{2028}", "a\u{7}", "ab\u{7f}", "\u{7f}x", "a\u{1}b", "x\u{9f}"];
-pub const PUNCT_WORDS: &[&str] = &["[", "]", "( a )", "[ foo ]", "bar !", "\u{ab}", "\u{bb}", "a/b", "http://x.y/z", "$1", "50%", "a,b", "\"q\""];
+pub const PUNCT_WORDS: &[&str] = &["[", "]", "( a )", "[ foo ]", "bar !", "\u{ab}", "\u{bb}", "a/b", "http://x.y/z", "$1", "50%", "a,b", "\"q\"", ",", ".", ";", ":", "'", "x ,"];
 
 pub const ANSI_WF: &[&str] = &[
     "\u{1b}[31m", "\u{1b}[0m", "\u{1b}[1;32m", "\u{1b}[m", "\u{1b}[38;5;196m", "\u{1b}[K", "\u{1b}[[",
